@@ -23,7 +23,8 @@ CATALOGUE = {
     "R11": "derives, doc comments, allow attributes, visibility dropped",
     "R12": "constant tables imported by contract (entries proved by U-TAB)",
     "R13": "integer literal / cast typing made explicit where Verus cannot infer it",
-    "R14": "method-call syntax on foreign or generic types becomes a prelude function call",
+    "R14": "method-call / operator syntax on foreign or generic types becomes a call of the named (extracted or modelled) function",
+    "R15": "a function-local `const X: T = E;` becomes `let X: T = E;`",
 }
 
 
